@@ -116,7 +116,8 @@ const (
 	OToReal
 	ORDiv
 	OBV2Nat
-	OUF // uninterpreted function application: Name, args; sort = result sort
+	OInt2BV // P0 = width
+	OUF     // uninterpreted function application: Name, args; sort = result sort
 )
 
 type Term struct {
@@ -293,6 +294,10 @@ func (ts *TermStore) bin(op Op, a, b *Term) *Term {
 			// (x + c) - (x + d)
 			if b.Op == OAdd && a.Args[0] == b.Args[0] {
 				return ts.bin(OSub, a.Args[1], b.Args[1])
+			}
+			// (x + c1) - (y + c2) = (x - y) + (c1 - c2)
+			if b.Op == OAdd && a.Args[1].IsConst() && b.Args[1].IsConst() {
+				return ts.bin(OAdd, ts.bin(OSub, a.Args[0], b.Args[0]), ts.Const(w, a.Args[1].Val-b.Args[1].Val))
 			}
 		}
 	case OMul:
@@ -977,7 +982,12 @@ func (t *Term) head() string {
 	case OFPFromBits:
 		eb, sb := fpEbSb(t.Sort.W)
 		return fmt.Sprintf("((_ to_fp %d %d) %s)", eb, sb, ref(t.Args[0]))
+	case OInt2BV:
+		return fmt.Sprintf("((_ int2bv %d) %s)", t.P0, ref(t.Args[0]))
 	case OIConst:
+		if strings.HasPrefix(t.Name, "(") {
+			return t.Name
+		}
 		if strings.HasPrefix(t.Name, "-") {
 			return "(- " + t.Name[1:] + ")"
 		}
